@@ -349,11 +349,15 @@ struct Space {
     std::vector<u16> sizes{0, 1, 2, 3};
     std::vector<u16> ssteps, dsteps;
     Space(bool th) : thorough(th) {
-        ssteps = {0, 1, 2, 5, 0x10};
-        dsteps = th ? std::vector<u16>{0, 1, 2, 5, 0x10} : std::vector<u16>{0, 1, 2};
+        // quick: the product that used to be the thorough tier; thorough: one more size, more strides
+        ssteps = th ? std::vector<u16>{0, 1, 2, 3, 5, 0x10, 0x100} : std::vector<u16>{0, 1, 2, 5, 0x10};
+        dsteps = th ? std::vector<u16>{0, 1, 2, 5, 0x10, 0x41} : std::vector<u16>{0, 1, 2, 5, 0x10};
+        if (th)
+            main_sizes = {0, 1, 2, 3, 5};
     }
+    std::vector<u16> main_sizes{0, 1, 2, 3};
     u64 MainCount() const {
-        u64 n = 64;
+        u64 n = main_sizes.size() * main_sizes.size() * main_sizes.size();
         n *= ssteps.size() * ssteps.size() * ssteps.size();
         n *= dsteps.size() * dsteps.size() * dsteps.size();
         return n * 2; // word / dword
@@ -363,8 +367,8 @@ struct Space {
         c.dword = idx & 1;
         idx >>= 1;
         for (int i = 0; i < 3; ++i) {
-            c.size[i] = sizes[idx & 3];
-            idx >>= 2;
+            c.size[i] = main_sizes[idx % main_sizes.size()];
+            idx /= main_sizes.size();
         }
         for (int i = 0; i < 3; ++i) {
             c.sstep[i] = ssteps[idx % ssteps.size()];
@@ -377,7 +381,7 @@ struct Space {
         c.sspace = c.dspace = 0;
         c.channel = 0;
         c.src = 0x0100;
-        c.dst = 0x0800;
+        c.dst = 0x4000;
         c.unit = 1;
         c.burst = 0;
         return c;
@@ -595,10 +599,11 @@ inline void Run(const Args& args, Result& res) {
                "(other channels hold decoy configurations); oracle = nested-loop reference: exact ordered DSP "
                "write log (memory observer), exact ordered external read and write logs, interrupt count 1; "
                "distinct = distinct write-log digests (summed over 16 shards)";
-    res.bound = Fmt("sizes {0..3}^3 x source steps {0,1,2,5,0x10}^3 x destination steps %s x word/dword DSP->DSP "
+    res.bound = Fmt("sizes %s x source steps %s x destination steps %s x word/dword DSP->DSP "
                     "(%llu configs) + %zu channel/start/overlap/bank-crossing/external/burst configurations from the "
                     "reset state + %zu two-transfer histories (same/other channel, no reset in between)",
-                    args.thorough() ? "{0,1,2,5,0x10}^3" : "{0,1,2}^3", (unsigned long long)main,
+                    args.thorough() ? "{0,1,2,3,5}^3" : "{0..3}^3", args.thorough() ? "{0,1,2,3,5,0x10,0x100}^3" : "{0,1,2,5,0x10}^3",
+                    args.thorough() ? "{0,1,2,5,0x10,0x41}^3" : "{0,1,2,5,0x10}^3", (unsigned long long)main,
                     sp.specials.size(), sp.pairs.size());
     res.assumptions = {"addresses stay inside the 0x20000-word data space (larger strides belong to C18)",
                        "external side: naturally aligned (word,U16)/(dword,U32) units; bursts only with step == unit "
